@@ -722,7 +722,7 @@ class Interp:
                 out.append(r if r.kind == "exc" else val(hook(list(r.value)) if plain else NOTNONE, r.state))
             return out
         if isinstance(e, ast.Lambda):
-            return [val(self._closure_value(e, fr), st)]
+            return self._closure_with_defaults(e, st, fr)
         if isinstance(e, (ast.ListComp, ast.SetComp, ast.GeneratorExp, ast.DictComp)):
             lhook = getattr(self.domain, "lazy_comprehension", None)
             lazy = lhook(self, e, st, fr) if lhook is not None and isinstance(e, ast.GeneratorExp) else None
@@ -1029,7 +1029,18 @@ class Interp:
                     else:
                         out.append(val(TRUE if hit == isinstance(op, ast.In) else FALSE, r.state))
                 return out
-        for r in self.eval_list([e.left, e.comparators[0]], st, fr):
+        both = self.eval_list([e.left, e.comparators[0]], st, fr)
+        if isinstance(op, (ast.In, ast.NotIn)):
+            # x in map(...) / a generator: membership consumes the iterator (as far as the model follows: to its end)
+            forced = []
+            for r in both:
+                if r.kind == "val" and getattr(self.domain, "pullable", lambda v: False)(r.value[1]) or (r.kind == "val" and isinstance(r.value[1], tuple) and r.value[1][:1] == ("lazymap",)):
+                    for g in self._forced([Result("val", r.value[1], r.state)], fr):
+                        forced.append(g if g.kind == "exc" else Result("val", (r.value[0], g.value), g.state))
+                else:
+                    forced.append(r)
+            both = forced
+        for r in both:
             if r.kind == "exc":
                 out.append(r)
                 continue
@@ -1430,13 +1441,20 @@ class Interp:
         if isinstance(s, ast.Pass) or isinstance(s, (ast.Import, ast.ImportFrom, ast.Global, ast.Nonlocal)):
             return [("next", None, st)]
         if isinstance(s, FUNC_TYPES):
-            closure = self._closure_value(s, fr)
-            hook = getattr(d, "decorate_nested", None)
-            if s.decorator_list and hook is not None:
-                got = hook(self, s, closure, st, fr)
-                if got is not None:
-                    return [("raise", r.value, r.state) if r.kind == "exc" else ("next", None, r.state.set(fr.local(s.name), r.value)) for r in got]
-            return [("next", None, st.set(fr.local(s.name), closure))]
+            out = []
+            for c_r in self._closure_with_defaults(s, st, fr):
+                if c_r.kind == "exc":
+                    out.append(("raise", c_r.value, c_r.state))
+                    continue
+                closure, st_c = c_r.value, c_r.state
+                hook = getattr(d, "decorate_nested", None)
+                if s.decorator_list and hook is not None:
+                    got = hook(self, s, closure, st_c, fr)
+                    if got is not None:
+                        out.extend(("raise", r.value, r.state) if r.kind == "exc" else ("next", None, r.state.set(fr.local(s.name), r.value)) for r in got)
+                        continue
+                out.append(("next", None, st_c.set(fr.local(s.name), closure)))
+            return out
         if isinstance(s, ast.ClassDef):
             return [("next", None, st)]
         if isinstance(s, ast.Break):
@@ -2193,6 +2211,8 @@ class Interp:
                     continue
                 if p.arg in argvals:
                     v = argvals[p.arg]
+                elif p.arg in defaults and any(n_ == f"<default {p.arg}>" for n_, _ in closure_env):
+                    v = next(v_ for n_, v_ in closure_env if n_ == f"<default {p.arg}>")   # evaluated when the function was defined
                 elif p.arg in defaults and isinstance(defaults[p.arg], ast.Constant):
                     v = self.domain.constant(defaults[p.arg])
                 elif p.arg in defaults and isinstance(defaults[p.arg], ast.Tuple) and getattr(self.domain, "exact_lists", False) and self._constant_tuple(defaults[p.arg]) is not None:
@@ -2296,6 +2316,25 @@ class Interp:
         if st.get("ev.cells", 0) == cell_n + 1:
             st = st.set("ev.cells", cell_n) if cell_n else State(frozenset((k, v) for k, v in st.items if k != "ev.cells"), st.log)
         return st
+
+    def _closure_with_defaults(self, node, st, fr):
+        """A lambda / nested def becomes a value: defaults that are not literals (`lambda test=test: ...`) are evaluated now, in
+        the defining frame, and travel with the function."""
+        base = self._closure_value(node, fr)
+        a = node.args
+        named = list(zip([p.arg for p in (a.posonlyargs + a.args)][len(a.posonlyargs + a.args) - len(a.defaults):], a.defaults)) + \
+            [(p.arg, dflt) for p, dflt in zip(a.kwonlyargs, a.kw_defaults) if dflt is not None]
+        todo = [(n_, e_) for n_, e_ in named if not isinstance(e_, ast.Constant) and self._constant_tuple(e_) is None and _empty_container(e_) is None]
+        if not todo or not getattr(self.domain, "closure_cells", False):
+            return [val(base, st)]
+        out = []
+        for r in self.eval_list([e_ for _, e_ in todo], st, fr, share=[True] * len(todo)):
+            if r.kind == "exc":
+                out.append(r)
+                continue
+            extra = tuple((f"<default {n_}>", v_) for (n_, _), v_ in zip(todo, r.value))
+            out.append(val(("func", node, (base[2] if len(base) == 3 else ()) + extra), r.state))
+        return out
 
     def _closure_value(self, node, fr):
         """The value of a lambda / nested def: its code and, under closure cells, references to the cells of the
